@@ -157,6 +157,9 @@ EXTRA_FIELDS = [
     ('Set-Cookie', 'a=b; Path=/'), ('Set-Cookie', 'c=d'), ('Content-Type', 'text/html; charset=utf-8'),
     ('Content-Type', 'application/octet-stream'), ('X-Long', 'v' * 300), ('Cache-Control', 'no-cache, no-store'),
     ('X-Latin', 'caf\xe9 \xfcber'), ('Vary', 'Accept-Encoding'), ('ETag', '"abc:def"'),
+    # obs-text bytes that are line boundaries for str.splitlines() once decoded as Latin-1 (NEL, VT, FF, FS, GS, RS): inside a
+    # field value they are just bytes (RFC 7230 3.2.6), the line ends at LF only
+    ('X-Note', 'caf\x85Content-Length: 0'), ('X-Title', 'page\x0ctwo\x0bthree'), ('X-Sep', 'a\x1cb\x1dContent-Type: application/x-evil\x1ec'),
 ]
 
 
